@@ -183,8 +183,8 @@ CHECKS = {
              "PostContinue with the same message class and the same resolved limits.  Scripts: all of <=2/3 calls over the "
              "alphabet (limits 0/1/2/None, new=True/False, termination sets, exit requests before and inside callbacks) and "
              "seeded random ones, on all four solver kinds.",
-        note="trusted: TLC and the recorder; exit requests are injected by setting the flag the signal handler sets (the "
-             "interactive prompt is not driven); default limits are taken from the documented formula; the wrappers fmin/"
+        note="trusted: TLC and the recorder; exit requests are injected by setting the flag the signal handler sets and, in the SIGINT part, through the real handler (the "
+             "prompt answered by a scripted input()); default limits are taken from the documented formula; the wrappers fmin/"
              "fmin_powell/diffev/diffev2 are run with every limit pattern (None/0/1/small/huge, with a stop rule that cannot hold and an "
              "ordinary one) and their (iter, funcalls, warnflag) judged by Lifecycle.WarnFlag/ResG/ResE (Trace_Lifecycle.TraceWrap)",
         design_ref="DESIGN.md section 4/C05"),
@@ -518,6 +518,54 @@ CHECKS.update({
 })
 
 PENDING = {}
+
+# Growth after the first registration (appended to the texts above when MANIFEST.json is written; DESIGN.md 10.7)
+GROWN = {
+    "C01": " Grown: the drivers rotate how the caller WRITES numbers (python ints, integer ndarrays, tuples for bounds, starts "
+           "and constraint results), start far from the origin under a rounding constraint, replace an integer box by a "
+           "fractional sub-box before the first Step / between iterations, use a fractional box that rounding maps into itself, "
+           "and draw DE populations with SetMultinormalInitialPoints / SetSampledInitialPoints as well.",
+    "C02": " Grown: see C01 (spellings, re-boxing with truncation-widening boxes 'shifted'/'negshift', other initial-point setters).",
+    "C03": " Grown: see C01 (integer-returning constraints, box 'fracround' on which clipping and rounding do not commute).",
+    "C04": " Grown: configuration handed over as KEYWORDS of Step/Solve (Trace_Lifecycle.KwF/pend: Solve processes them on "
+           "entry, Step only if it begins an iteration) - every script is also run in its keyword form; read-only QUERIES "
+           "(Terminated(), Terminated(info=True), property reads) as the specified action Query = Resolve; objectives whose "
+           "energies are exactly 0.0 / negative / integer-valued; Cover_Lifecycle's view distinguishes an evaluation monitor "
+           "shorter than the counter and Step is driven from every abstract state; a trace rejected only on C05 clauses is "
+           "validated again with C05 waived (state follows the observation) so that the rest is still judged on C04.",
+    "C05": " Grown: the REAL interrupt path (specs/solver/Signal.tla, harness/c05_signal.py): handler installation by "
+           "enable_signal_handler()/Solve, SIGINT raised from inside the cost function / callback with signal.raise_signal, the "
+           "handler's menu (sol / call / cont / exit / unknown, any case) answered by a scripted builtins.input; TLC checks "
+           "NoIterAfterExit, MsgNamesExit, RestoredAfterSolve, SolveStartsClean, StepKeepsRequest, CallbackCount and "
+           "SolveReturns, emits every script (4,245 quick / 161,388 thorough) and each is replayed on the four solver kinds in "
+           "forked workers.  Keyword forms, queries and the waive/follow re-validation as under C04 (here: C04 waived).",
+    "C06": " Grown: ENSEMBLE solvers (specs/solver/CheckpointEns.tla, harness/c06_ens.py): an ensemble is a vector of member "
+           "objects on a heap; lattice/NM, buckshot/Powell, lattice/Powell (thorough: sparsity/NM) driven by Step and Solve; "
+           "ResumeEquivalence, Independence, CopyCounts, TotalIsSum over all members; six refuted designs incl. "
+           "member_dump_clobbers (found on the pinned tree, repaired).  Monitor classes and their cost multiplier k rotate "
+           "(Monitor / VerboseMonitor, the same with k=2, LoggingMonitor / VerboseLoggingMonitor with k=2).",
+    "C07": " Grown: ensembles also driven by the user's loop 'while not solver.Terminated(): solver.Step()' with read-only "
+           "queries between the steps, on configurations without limits whose members outrun the ensemble's own defaults.",
+    "C08": " Grown: Powell with caller-supplied direction sets spelled as int lists / integer arrays / tuples, also through "
+           "fmin_powell; Nelder-Mead starts with tiny non-zero coordinates (1e-9 .. 5e-324) next to the exact-zero class.",
+    "C09": " Grown: integer nbins include primes (5, 7) in 2 and 3 dimensions.",
+    "C11": " Grown: a quick detector table with non-monotone windows over three values; MEASURE collapses in the solver loop "
+           "(CollapseWeight / CollapsePosition on solvers whose parameter vector is a flattened product measure, "
+           "harness/c11_measure.py): zero weights and tracked pairs as further relation kinds of Collapse.tla.",
+    "C12": " Grown: program texts in four white-space spellings; symbolic_bounds at the magnitudes 1e-10, 1e10, 1e-300 and "
+           "with more than 8 decimals.",
+    "C13": " Grown: system texts in four white-space spellings (all schemes but the plain one).",
+    "C14": " Grown: system texts in four white-space spellings (all schemes but the plain one).",
+    "C16": " Grown: with_std; impose_measure / impose_position / impose_weight (cons/TransformsMeasure.tla: Track / NoWeight "
+           "actions on product measures over exact rationals); the interval algebra behind interval_overlap "
+           "(cons/Intervals.tla) and the pair helpers (cons/PairTools.tla).",
+    "C18": " Grown: math/Stats.tla (standardised moments, extrema and ess_ forms with tol, support / expectation with tol, "
+           "weighted_select, trimmed / winsorised definitions over 7 cut shapes, impose_median / mad / tmean / tvariance / tstd, "
+           "normalisation table incl. zsum / zmass and l1-l3 norms) and math/StatsDist.tla (matrix / pairwise / reduced forms "
+           "of the distance metrics, Lnorm with axis, lipschitz metric and distance, infeasibility; moves Swap / Translate / "
+           "Negate / RevCoords).",
+    "C20": " Grown: log-file ids 0 (falsy) and two-digit ids / iteration numbers (MC_LogFile_long_*); 0-d array costs.",
+}
 for _i in range(1, 21):
     _id = "C%02d" % _i
     if _id not in CHECKS:
@@ -535,7 +583,8 @@ def build():
             "evidence_file": "/verif/evidence/%s.json" % pid,
             "replay_cmd_template": "bin/check %s --replay {path}" % pid,
             "engine": "tlc+python-harness",
-            "level_claimed": {"category": c["level"], "text": c["text"], "design_ref": c.get("design_ref", "DESIGN.md")},
+            "level_claimed": {"category": c["level"], "text": c["text"] + GROWN.get(pid, ""),
+                              "design_ref": c.get("design_ref", "DESIGN.md")},
             "level_note": c["note"],
             "technique": c["technique"],
         })
